@@ -13,7 +13,8 @@
 (***************************************************************************)
 EXTENDS QuantityAlg, Json, IOUtils, TLC
 
-CONSTANTS Source, Emit
+CONSTANTS Source, Emit,
+          FixedDevs      \* named deviations repaired in the tree (from the fixed entries of known_findings)
 
 FileIn == IF Source = "file" THEN JsonDeserialize(IOEnv.QALG_IN) ELSE [units |-> <<>>, scenarios |-> <<>>]
 FileUnits == FileIn.units
@@ -85,8 +86,8 @@ Record(s) ==
       base |-> bt, val |-> TDiv(bt, TFac(ex)),
       exact |-> IF c = "ok" /\ Source = "enum" /\ ResExactOK(s.op, s.a, s.b, s.n)
                 THEN ResBaseQ(s.op, s.a, s.b, s.n) ELSE <<>>,
-      machex |-> IF c = "ok" /\ s.op = "pow" THEN MachPowEx(NEx(s.a), s.n, s.form) ELSE ex,
-      tags |-> (IF c = "ok" /\ s.op = "pow" THEN PowTags(s.a, s.n, s.form) ELSE {}) \cup DispatchTags(s.side, s.num)]
+      machex |-> IF c = "ok" /\ s.op = "pow" THEN MachPowEx(NEx(s.a), s.n, s.form, FixedDevs) ELSE ex,
+      tags |-> (IF c = "ok" /\ s.op = "pow" THEN PowTags(s.a, s.n, s.form, FixedDevs) ELSE {}) \cup DispatchTags(s.side, s.num, FixedDevs)]
 
 EmitInv == (stage = 2 /\ Emit) => PrintT(ToJson(Record(sc)))
 
@@ -117,8 +118,10 @@ Lemmas ==
     \* cancellation: dimensionless results carry only dimensionless named units
     /\ LET ex == ResEx(op, a, b, n) IN ZeroDim(ex) => \A i \in DOMAIN ex : ~UnitDimensional(ex[i].u)
     \* the transcribed exponent scaling agrees with the ideal except for non-integral float products
-    /\ (op = "pow" /\ ~FloatForm(sc.form, n)) => PowTags(a, n, sc.form) = {}
-    /\ (op = "pow" /\ RIsInt(n)) => PowTags(a, n, sc.form) = {}
+    /\ (op = "pow" /\ ~FloatForm(sc.form, n)) => PowTags(a, n, sc.form, {}) = {}
+    /\ (op = "pow" /\ RIsInt(n)) => PowTags(a, n, sc.form, {}) = {}
+    \* with the deviation repaired the transcription is the ideal
+    /\ (op = "pow") => PowTags(a, n, sc.form, {"float_exponent_truncated"}) = {}
 
 Spec == Init /\ [][Next]_vars
 =============================================================================
